@@ -43,6 +43,9 @@ PROGRAMS = {
     'block-with-timeout': "import threading\nev = threading.Event()\nev.wait(0.6)\nwhile True:\n    pass\n",
     'nested-function-loop': "def spin(n):\n    while True:\n        n += 1\ndef outer():\n    return spin(0)\nouter()\n",
     'loop-in-try-finally': "try:\n    while True:\n        pass\nfinally:\n    done = True\n",
+    # one call into the interpreter's C code that takes many times the limit and never gives the interpreter lock back
+    # (how many: see long_call_size(); it is to take about 1.2 s on the machine the check runs on, four times the longest limit used)
+    'one-long-builtin-call': "total = sum(range(LONG_CALL_SIZE))\nprint('total is', total)\n",
 }
 BLOCK_FOREVER = "import threading\nlock = threading.Lock()\nlock.acquire()\nlock.acquire()\n"
 
@@ -53,8 +56,25 @@ HISTORIES = ['fresh', 'two-earlier-runs', 'earlier-runs-then-clear_context']
 NEXT_KINDS = ['run-print', 'call-add', 'evaluate-expr', 'run-threaded', 'run-input', 'run-long']
 
 
+_LONG_CALL_SIZE = []
+
+
+def long_call_size():
+    if not _LONG_CALL_SIZE:
+        best = None
+        for _ in range(3):
+            t0 = time.perf_counter()
+            sum(range(2 * 10 ** 6))
+            dt = time.perf_counter() - t0
+            best = dt if best is None else min(best, dt)
+        _LONG_CALL_SIZE.append(max(10 ** 7, int(2 * 10 ** 6 * 1.2 / max(best, 1e-4))))
+    return _LONG_CALL_SIZE[0]
+
+
 def student_files(prog, entry):
     body = PROGRAMS.get(prog, BLOCK_FOREVER)
+    if 'LONG_CALL_SIZE' in body:
+        body = body.replace('LONG_CALL_SIZE', str(long_call_size()))
     helpers = "def add(a, b):\n    print('adding', a, b)\n    return a + b\n\n"
     if entry == 'run':
         return {'answer.py': helpers + body}
@@ -470,6 +490,15 @@ def run_case(ctx, case):
     fam = 'program=%s' % program_family(prog)
     if raised is not None:
         ctx.violation('C14|call-raised|%s|%s' % (type(raised).__name__, entry), cs, traceback.format_exception_only(type(raised), raised)[-1][:300])
+        return
+    if prog == 'one-long-builtin-call' and wall <= 2 * allowed:
+        ctx.undecided('the long operation did not take several times the limit on this machine (%.2fs, limit %.2fs)' % (wall, allowed))
+        return
+    if prog == 'one-long-builtin-call' and at_return['exception'] is None and at_return['new_runtime'] == 0:
+        # the execution took several times the limit and was then treated as one that ended in time
+        ctx.violation('C14|limit-not-enforced|program=single-long-C-level-operation|%s' % entry, cs,
+                      {'allowed_time': allowed, 'the call returned after (s)': round(wall, 2), 'get_exception()': at_return['exception'],
+                       'new runtime feedbacks': at_return['new_runtime'], 'events': order})
         return
     if wall > allowed + 5 + (GATE_TIMEOUT if inter != 'unforced' else 0):
         ctx.undecided('watchdog: call took %.1fs for allowed_time %.2f (%s)' % (wall, allowed, case_label(case)))
@@ -970,6 +999,8 @@ def all_cases(ctx):
             for inter in INTERLEAVINGS:
                 if prog == 'block-forever' and inter != 'unforced':
                     continue
+                if prog == 'one-long-builtin-call' and (inter != 'unforced' or entry == 'import'):
+                    continue        # (nothing can be ordered while it runs: no other thread gets to run at all)
                 if inter == 'outer-interrupt-before-inner' and entry != 'import':
                     continue
                 if inter == 'zombie-between-numbering-and-recording-of-next' and (entry == 'import' or prog == 'swallow-then-finish'):
